@@ -210,6 +210,24 @@ def rule_r2(ctx) -> List[R.Inst]:
                  idiom=f"{hit[0]} = {{v: k for k, v in {inv[hit[0]]}.items()}} (sound because layouts are injective: C04.R1)")]
 
 
+def _lnobj_expr(ctx) -> Optional[str]:
+    """source text of the value the header writes after b"#LNOBJ " (helpers inlined, a local bound once resolved, the
+    encode-unless-bytes conditional looked through)"""
+    hdr = ctx.M.nfn(WRITE_HEADER)
+    for n in walk_no_nested(hdr.node):
+        if isinstance(n, ast.BinOp) and isinstance(n.op, ast.Add) and isinstance(n.left, ast.Constant) and n.left.value == b"#LNOBJ ":
+            e = n.right
+            if isinstance(e, ast.IfExp):
+                e = e.orelse
+            if isinstance(e, ast.Name):
+                ds = [x.value for x in walk_no_nested(hdr.node) if isinstance(x, ast.Assign) and len(x.targets) == 1 and
+                      isinstance(x.targets[0], ast.Name) and x.targets[0].id == e.id]
+                if len(ds) == 1:
+                    e = ds[0]
+            return unparse(e)
+    return None
+
+
 def rule_r3(ctx) -> List[R.Inst]:
     M = ctx.M
     rid = "C05.R3"
@@ -262,8 +280,11 @@ def rule_r3(ctx) -> List[R.Inst]:
                                 f"{name} carry {show(el[2])}; it must be the id of the row's own sample",
                                 construct=f"{name} value <- {show(el[2])}"))
         else:
-            insts.append(R.ok(rid, key, file, st.lineno, idiom="tail object = self.ln_end_channel (the id written to #LNOBJ)")
-                         if val == "self.ln_end_channel" else
+            # the tail value is the very expression the header declares with #LNOBJ (compared after inlining helpers / locals)
+            hdr_expr = _lnobj_expr(ctx)
+            same = hdr_expr is not None and _norm(unparse(el[2])) == _norm(hdr_expr) and "ln_end_channel" in hdr_expr
+            insts.append(R.ok(rid, key, file, st.lineno, idiom="tail object = the id written to #LNOBJ (from self.ln_end_channel)")
+                         if val == "self.ln_end_channel" or same else
                          R.viol(rid, key, file, st.lineno,
                                 f"hold tails carry {show(el[2])}; a reader closes a hold only on the id declared by #LNOBJ "
                                 f"(self.ln_end_channel)", construct=f"tail value <- {show(el[2])}"))
@@ -271,7 +292,7 @@ def rule_r3(ctx) -> List[R.Inst]:
     wt = c04.header_writer(ctx)
     ln = wt.get(b"LNOBJ")
     hdr = M.fn(WRITE_HEADER)
-    if ln and "ln_end_channel" in ln[0]:
+    if (ln and "ln_end_channel" in ln[0]) or (ln and "ln_end_channel" in (_lnobj_expr(ctx) or "")):
         insts.append(R.ok(rid, "lnobj-declared", file, ln[1].lineno, idiom="#LNOBJ <- self.ln_end_channel"))
     else:
         insts.append(R.viol(rid, "lnobj-declared", file, hdr.node.lineno,
@@ -610,6 +631,109 @@ def rule_r6(ctx) -> List[R.Inst]:
     return insts
 
 
+def rule_r8(ctx) -> List[R.Inst]:
+    """contradiction rule (Engler): the header writer tests a field for emptiness before emitting it (`if self.ln_end_channel:` —
+    a chart read from a file without #LNOBJ has b"" there); the body writer must not use the same field unguarded as a written
+    value, or a hold added to such a chart gets an EMPTY tail value: the line loses a slot, no #LNOBJ is written, the hold is gone"""
+    M = ctx.M
+    rid = "C05.R8"
+    hdr = M.nfn(WRITE_HEADER)
+    body = _write_notes_fn(ctx)
+    file = M.mods[hdr.mod].rel
+    insts = []
+    guarded = {}
+    for n in walk_no_nested(hdr.node):
+        if isinstance(n, ast.If):
+            t = n.test
+            f = C.self_attr(t) if isinstance(t, ast.Attribute) else None
+            if f and any(C.self_attr(x) == f for b in n.body for x in ast.walk(b)):
+                guarded[f] = n
+    # where a possibly-empty value of the field comes from: a reader default that is an empty literal
+    rd = M.fn(BMSMAP + "._read_file_header")
+    for f, gnode in sorted(guarded.items()):
+        empties = [n for n in walk_no_nested(rd.node) if isinstance(n, ast.Assign) and C.self_attr(n.targets[0]) == f and
+                   isinstance(n.value, ast.Call) and call_name(n.value) == "get" and len(n.value.args) == 2 and
+                   isinstance(n.value.args[1], ast.Constant) and n.value.args[1].value in (b"", "", None)]
+        raw = []
+        for n in ast.walk(body.node):
+            if isinstance(n, ast.Attribute) and C.self_attr(n) == f and isinstance(n.ctx, ast.Load):
+                raw.append(n)
+        # a use is guarded when it is the left operand of `or <non-empty>` or sits under an `if self.<f>` / conditional expression on it
+        def is_guarded(u):
+            for p_ in ast.walk(body.node):
+                if isinstance(p_, ast.BoolOp) and isinstance(p_.op, ast.Or) and p_.values and p_.values[0] is u:
+                    return True
+                if isinstance(p_, (ast.If, ast.IfExp)) and C.self_attr(p_.test) == f and any(x is u for x in ast.walk(p_)) and p_.test is not u:
+                    return True
+            return False
+        bad = [u for u in raw if not is_guarded(u)]
+        key = f"empty:{f}"
+        if bad and empties:
+            insts.append(R.viol(rid, key, file, bad[0].lineno,
+                                f"the header writer emits '{f}' only when it is non-empty ('{unparse(gnode.test)}'; the reader sets it to "
+                                f"{unparse(empties[0].value.args[1])} for a file without the tag), but the body writer uses self.{f} as a written value "
+                                f"without that test: a hold added to a chart read from such a file is written with an EMPTY tail value — its line "
+                                f"has one slot fewer than its denominator says, no #LNOBJ is written and the hold cannot be read back",
+                                construct=f"_write_notes uses self.{f} unguarded; _write_file_header guards it"))
+        else:
+            insts.append(R.ok(rid, key, file, gnode.lineno,
+                              idiom=f"'{f}' is tested for emptiness in the header and " + ("not used raw in the body" if not bad else "cannot be empty after a read")))
+    if not insts:
+        insts.append(R.ok(rid, "empty:none", file, hdr.node.lineno, idiom="no field is emitted under an emptiness test"))
+    return insts
+
+
+
+def rule_r9(ctx) -> List[R.Inst]:
+    """bounded write: a value formatted into a FIXED-WIDTH field of a line ('#' + measure as three digits — the reader slices
+    characters 1..3) must be bounded before it is written; `:03` pads short values and does not cut long ones, so an object beyond
+    measure 999 silently yields '#1000cc:…', which a reader parses as measure 100 and a channel starting with '0'"""
+    M = ctx.M
+    rid = "C05.R9"
+    fn = _write_notes_fn(ctx)
+    file = M.mods[fn.mod].rel
+    insts = []
+    fields = []
+    for n in ast.walk(fn.node):
+        if isinstance(n, ast.FormattedValue) and n.format_spec is not None:
+            spec = "".join(str(v.value) for v in n.format_spec.values if isinstance(v, ast.Constant))
+            import re as _re
+            m_ = _re.fullmatch(r"0?(\d+)d?", spec)
+            if m_ and int(m_.group(1)) > 0 and "." not in spec:
+                fields.append((n, int(m_.group(1))))
+        if isinstance(n, ast.BinOp) and isinstance(n.op, ast.Mod) and isinstance(n.left, ast.Constant) and isinstance(n.left.value, (bytes, str)):
+            import re as _re
+            t_ = n.left.value.decode("ascii", "replace") if isinstance(n.left.value, bytes) else n.left.value
+            m_ = _re.search(r"%0?(\d+)d", t_)
+            if m_ and not isinstance(n.right, ast.Tuple):
+                fields.append((n.right, int(m_.group(1))))
+    if not fields:
+        return [R.undec(rid, "fixed-width", file, fn.node.lineno, "no fixed-width integer field found in the line writer")]
+    for node, w in fields:
+        v = node.value if isinstance(node, ast.FormattedValue) else node
+        names = sorted({x.id for x in ast.walk(v) if isinstance(x, ast.Name)} - {"int", "str", "round"})
+        what = names[0] if names else unparse(v)
+        limit = 10 ** w
+        # a bound: a comparison (in an if / assert / raise guard) of something named like the value with a constant >= 10**w - 1
+        guards = []
+        for g in ast.walk(fn.node):
+            if isinstance(g, ast.Compare) and len(g.ops) == 1 and what in unparse(g) and any(
+                    isinstance(c_, ast.Constant) and isinstance(c_.value, (int, float)) and limit - 1 <= c_.value <= limit
+                    for c_ in [g.left] + g.comparators):
+                guards.append(g)
+        key = f"fixed-width:{what}"
+        if guards:
+            insts.append(R.ok(rid, key, file, guards[0].lineno, idiom=f"'{what}' is compared with {limit - 1}/{limit} before it is written into {w} digits"))
+        else:
+            insts.append(R.viol(rid, key, file, getattr(node, "lineno", fn.node.lineno),
+                                f"'{what}' is written into a {w}-digit field without a bound: a value of {limit} or more widens the field "
+                                f"('#{limit}16:…' for measure {limit}) and every reader, which slices the fixed positions, takes the wrong "
+                                f"measure and channel — the line is syntactically invalid and nothing is reported",
+                                construct=f"{w}-digit field of {what} unbounded"))
+    return insts
+
+
+
 def rule_r7(ctx) -> List[R.Inst]:
     from .common import forwarding_insts
     return forwarding_insts(ctx, "C05.R7", BMSMAP + ".write_file", ("write",)) + \
@@ -629,6 +753,8 @@ SPECS = [
     RuleSpec("C05.R4", rule_r4, 6, "A2", "all five object families are written once; row layout = (snap, channel, value)"),
     RuleSpec("C05.R5", rule_r5, 9, "A9", "line shapes: '#mmmcc:' note lines, 00 empty slots, '#KEY value' header lines"),
     RuleSpec("C05.R7", rule_r7, 2, "A8", "write_file / write forward the channel layout and sample default they accept"),
+    RuleSpec("C05.R8", rule_r8, 1, "A8", "contradiction: a field the header emits only when non-empty is not used unguarded as a written value in the body"),
+    RuleSpec("C05.R9", rule_r9, 1, "A9", "bounded write: a value formatted into a fixed-width field of a line is bounded first"),
     RuleSpec("C05.R6", rule_r6, 6, "A7", "writer timing map from every tempo point; slot = numerator * slots / (denominator * beats-per-measure)"),
     RuleSpec("C05.D", rule_dep, 1, "M0", "rules of the shared code (timing engine, list classes, stacker) that the operations of this property reach"),
 ]
